@@ -490,7 +490,7 @@ pub async fn write_http_response(
     )
     .into_bytes();
     if response.content_type != ContentType::None {
-        if response.headers.get_only("content-type").is_some() {
+        if !response.headers.get_all("content-type").is_empty() {
             return Err(HttpError::DuplicateContentTypeHeader);
         }
         write!(
@@ -503,14 +503,25 @@ pub async fn write_http_response(
     if close {
         write!(head_bytes, "connection: close\r\n",).unwrap();
     }
+    // The framing headers are automatic.  Refuse a response that adds its own,
+    // once or several times.  A message must not have both content-length and transfer-encoding.
+    // https://datatracker.ietf.org/doc/html/rfc7230#section-3.3.2
+    let has_content_length = !response.headers.get_all("content-length").is_empty();
+    let has_transfer_encoding = !response.headers.get_all("transfer-encoding").is_empty();
     if let Some(body_len) = response.body.len() {
-        if response.headers.get_only("content-length").is_some() {
+        if has_content_length {
             return Err(HttpError::DuplicateContentLengthHeader);
+        }
+        if has_transfer_encoding {
+            return Err(HttpError::DuplicateTransferEncodingHeader);
         }
         write!(head_bytes, "content-length: {body_len}\r\n").unwrap();
     } else {
-        if response.headers.get_only("transfer-encoding").is_some() {
+        if has_transfer_encoding {
             return Err(HttpError::DuplicateTransferEncodingHeader);
+        }
+        if has_content_length {
+            return Err(HttpError::DuplicateContentLengthHeader);
         }
         write!(head_bytes, "transfer-encoding: chunked\r\n").unwrap();
     }
